@@ -17,10 +17,18 @@ def session(repo):
     return s
 
 
+FUNCS = {}          # qualified function name -> number of abstract calls, accumulated over one check run
+
+
 def _work(args):
     fn, repo, item = args
     try:
-        return ('ok', fn(session(repo), item))
+        S = session(repo)
+        before = dict(S.interp.call_counts)
+        r = fn(S, item)
+        after = S.interp.call_counts
+        delta = {k: v - before.get(k, 0) for k, v in after.items() if v != before.get(k, 0)}
+        return ('ok', (r, delta))
     except AnalysisError as e:
         return ('analysis-error', (e.kind, e.msg + ((' at %s' % (e.loc,)) if getattr(e, 'loc', None) else '')
                                    + ' [config %r]' % (item,)))
@@ -57,7 +65,9 @@ def pmap(fn, repo, items, jobs):
     out = []
     for kind, val in res:
         if kind == 'ok':
-            out.append(val)
+            out.append(val[0])
+            for k, v in val[1].items():
+                FUNCS[k] = FUNCS.get(k, 0) + v
         elif kind == 'analysis-error':
             raise AnalysisError(val[0], val[1])
         else:
